@@ -392,6 +392,7 @@ func TestVerifC04(t *testing.T) {
 		world.AddAttacks(g, r, []string{s.Host(9)})
 		g.Materialize()
 		s.SetHandler(wk.Handler(g.World))
+		s.ResetLog()
 		if !c.Begin(n, fmt.Sprintf("browsing world %d", i)) {
 			continue
 		}
